@@ -13,9 +13,17 @@ Ltac Zify.zify_post_hook ::= Z.div_mod_to_equations.
 Section WithNum.
 Context {NumO : NumOps}.
 
-(* the JSON text chosen for a literal is read back as that literal *)
+(* The JSON text chosen to spell a literal: lit_text v is a JSON text of v whenever
+   v has one, and is not a JSON text at all otherwise.  (Not every value has one:
+   a string that is not valid UTF-8 is never what json.Unmarshal returns.)  Such a
+   function exists for every number type; where json.Marshal's text is read back
+   (Proofs/JsonRound.v) it is json.Marshal. *)
+Definition lit_spec (lit_text : value -> bytes) : Prop :=
+  forall v, json_unmarshal (lit_text v) = Some v \/
+            (json_unmarshal (lit_text v) = None /\ forall t, json_unmarshal t <> Some v).
+
 Variable lit_text : value -> bytes.
-Hypothesis lit_ok : forall v, is_json v = true -> json_unmarshal (lit_text v) = Some v.
+Hypothesis lit_ok : lit_spec lit_text.
 
 Notation render := (render lit_text).
 
@@ -415,7 +423,7 @@ Qed.
 Definition veq (ty : tokType) (a b : bytes) : Prop :=
   match ty with
   | tNumber => atoi a = atoi b
-  | tJSONLiteral => json_unmarshal a = json_unmarshal b
+  | tJSONLiteral => json_unmarshal a = json_unmarshal b /\ json_unmarshal b <> None
   | tUnquotedIdentifier | tQuotedIdentifier | tStringLiteral => a = b
   | _ => True
   end.
@@ -1043,7 +1051,8 @@ Lemma nud_lit v : StE (ELit v).
 Proof.
   apply StE_of_nud. intros i Hw Hnp Hsp Hf. unfold NudOk, nE in *. cbn [render length wp] in *.
   apply Spell_cons in Hsp as [H0 _]. cbn [ttype tvalue tk] in H0. destruct (tokat_token _ _ _ H0) as [t [T1 [T2 T3]]].
-  cbn [veq] in T3. exists 0%nat, t. split; [exact T1|]. unfold nud. rewrite T2, T3, (lit_ok v Hw). replace (i + 1)%nat with (S i) by lia. reflexivity.
+  cbn [veq] in T3. destruct T3 as [T3 T4]. destruct (lit_ok v) as [E|[E _]]; [|congruence].
+  exists 0%nat, t. split; [exact T1|]. unfold nud. rewrite T2, T3, E. replace (i + 1)%nat with (S i) by lia. reflexivity.
 Qed.
 
 Lemma nud_raw s0 : StE (ERaw s0).
@@ -1699,10 +1708,19 @@ Proof.
 Qed.
 
 (* the parser on the spelling of a well-precedenced tree builds the AST of that tree *)
-Theorem parse_render e : wp e = true -> npos e = true -> parse_tokens (render e ++ [tk tEOF []]) = Ok (compile e).
+Definition lits_valid (l : list token) : Prop :=
+  Forall (fun t => ttype t = tJSONLiteral -> json_unmarshal (tvalue t) <> None) l.
+
+Lemma veq_self ty v : (ty = tJSONLiteral -> json_unmarshal v <> None) -> veq ty v v.
+Proof. destruct ty; cbn; auto. Qed.
+
+Theorem parse_render e : wp e = true -> npos e = true -> lits_valid (render e) ->
+  parse_tokens (render e ++ [tk tEOF []]) = Ok (compile e).
 Proof.
-  intros Hw Hnp. apply (parse_tokens_complete e _ Hw Hnp (render_eof_wf e)).
-  intros k t Hk. exists t. rewrite Nat.add_0_l. split; [exact Hk|]. split; [reflexivity|]. destruct (ttype t); cbn; auto.
+  intros Hw Hnp Hv. apply (parse_tokens_complete e _ Hw Hnp (render_eof_wf e)).
+  intros k t Hk. exists t. rewrite Nat.add_0_l. split; [exact Hk|]. split; [reflexivity|]. apply veq_self.
+  assert (Hall : lits_valid (render e ++ [tk tEOF []])) by (apply Forall_app; split; [exact Hv | constructor; [discriminate | constructor]]).
+  unfold lits_valid in Hall. rewrite Forall_forall in Hall. apply Hall. eapply nth_error_In; eauto.
 Qed.
 
 End WithNum.
